@@ -383,6 +383,11 @@ pub fn events() -> Vec<Ev> {
         vec![(true, "y".into()), (true, "x".into())],
         vec![(true, "z".into()), (true, "y".into())],
         vec![(true, "x".into()), (true, "z".into()), (true, "w".into())],
+        // a name repeated inside the given list (same tag): still one entry of the ordered map
+        vec![(true, "y".into()), (true, "x".into()), (true, "y".into()), (true, "x".into())],
+        vec![(false, "v".into()), (false, "v".into())],
+        // names with a multi-byte character at every byte offset from 1 to 7
+        (1..=7).map(|k| (true, format!("{}\u{e9}b", "a".repeat(k)))).collect(),
     ];
     let mut out = Vec::new();
     for path in targets {
@@ -527,7 +532,7 @@ pub fn run(ctx: &Ctx) {
     };
     // the model is part of the key so that a disagreement is never merged away
     let key = |s: &State| state_key(s);
-    let observe = |s: &State| subject::render(&s.el, Preset::QuickXml, false);
+    let observe = |s: &State| subject::guarded(|| subject::render(&s.el, Preset::QuickXml, false)).unwrap_or_else(|p| format!("PANIC: {}", p));
     let bfs = Bfs {
         n_events: evs.len(),
         init: inits.iter().map(|i| i.1.clone()).collect(),
